@@ -47,6 +47,11 @@ def cases(tier, seed):
             cfg = S.cfg_for(setup, agg, policy, 100)
             cfg["alphas"] = alphas_cycle[i % 4] if not setup.startswith("np") else [a for a in alphas_cycle[i % 4] if a <= 0.7] or [0.7]
             out.append(dict(seed=seed, bg=dict(S.bg_for(setup), partial=1), probes=[list(p) for p in pr], cfg=cfg))
+    # a county that consists of one unit outside the model without a single vote yet: its totals are exactly zero
+    for st in ("unexpected", "unit_blocklisted", "zero_baseline"):
+        for setup in setups:
+            for agg in ("all", "cf_pc"):
+                out.append(dict(seed=seed, bg=dict(S.bg_for(setup), partial=2), probes=[[st, "newcounty"]], cfg=S.cfg_for(setup, agg, "drop", 100), zero_votes=True))
     # district office: 2-key contest table and 3-key county table, districts 1 / 10 / 2
     dtypes = S.probe_types(statuses=["reporting", "nonrep0", "nonrep_partial", "unexpected", "zero_baseline"], locations=["pop0", "pop1", "newcounty"])
     for st_loc in dtypes:
@@ -146,6 +151,11 @@ def evaluate(case):
         cov["gaussian_structures"] += 1
     else:
         units = S.build_units(case)
+        if case.get("zero_votes"):
+            for u in units:
+                if u["role"] == "probe":
+                    u.update(r_dem=0, r_gop=0, r_turnout=0, pev=0.0)
+            cov["runs_with_zero_total_group"] += 1
     cfg = case["cfg"]
     pm = cfg["pi_method"]
     res = E.run_estimates(units, cfg, keep_client=True)
